@@ -98,7 +98,7 @@ func c38Module(t *testing.T, m map[string][]byte) (*StateModule, func()) {
 func TestVerif_C38(t *testing.T) {
 	r := verifmc.NewReport("C38", "rpc-paged-keys", "exploration")
 	defer r.Write()
-	maxSize := verifmc.Pick(3, 5)
+	maxSize := verifmc.Pick(3, 7)
 	r.Rule = fmt.Sprintf("every subset of up to %d keys of a 10-key colliding alphabet (empty key, keys that prefix other keys, zero-low-nibble bytes) as a state x 9 prefixes x every page size 1..n+1: state_getKeysPaged is iterated with afterKey = last returned key through the real StateModule/InmemoryStorageState/BlockState (Block=nil) and the concatenation compared with the sorted matching keys; state_getPairs(prefix) compared with the matching pairs; a case is non-trivial when at least one key matches the prefix", maxSize)
 	// enumerate subsets
 	var subsets [][]int
